@@ -105,6 +105,7 @@ type Machine struct {
 	WithInits    bool
 	fs           *FS
 	clock        int
+	PoolPreempt  bool // preemption points after sync.Pool Get/Put
 	SameSecond   bool
 	ExploreCoins bool
 	CrashAt      int
